@@ -35,6 +35,35 @@ let handle (toks : string list) : string =
            if cls <> [] then "chk " ^ String.concat "," cls ^ start_kind ^ (if model <> impl then " (and model differs)" else "")
            else if model <> impl then "diff session_trace model=" ^ model else "ok nt"
        | _ -> "bad line")
+  | "Q" :: timeout :: ooo :: wmk :: rest ->
+      (match split_hash rest with
+       | [ []; evs; res ] | [ evs; res ] ->
+           let c = { ntimeout = zs timeout; nooo = zs ooo; nlateness = Z0 } in
+           let rec pe = function
+             | id :: ts :: k :: r -> ((zs id, zs ts), zs k) :: pe r
+             | [] -> [] | _ -> failwith "bad event list" in
+           let rec take n l = if n = 0 then ([], l) else
+               (match l with x :: r -> let (a, b) = take (n - 1) r in (x :: a, b) | [] -> failwith "short ids") in
+           let rec pr = function
+             | [] -> []
+             | ";" :: r -> pr r
+             | k :: ws :: we :: cnt :: n :: r ->
+                 let (ids, r') = take (int_of_string n) r in
+                 { nr_key = zs k; nr_start = zs ws; nr_end = zs we; nr_ids = List.map zs ids; nr_count = zs cnt } :: pr r'
+             | _ -> failwith "bad result list" in
+           let results = pr res in
+           let cls = List.sort_uniq compare (List.map string_of_nclause (chk_session_sql c (zs wmk) (pe evs) results)) in
+           (* same narrowing of start_not_earliest as for the stepped traces *)
+           let start_kind =
+             if not (List.mem "start_not_earliest" cls) then "" else
+             let evl = pe evs in
+             let kinds = List.filter_map (fun r ->
+                 let tss = List.filter_map (fun i -> match List.find_opt (fun e -> kid e = i) evl with Some e -> Some (int_of_z (kts e)) | None -> None) r.nr_ids in
+                 let mn = List.fold_left min max_int tss in
+                 if int_of_z r.nr_start <> mn then Some (if tss <> [] && int_of_z r.nr_start = List.hd tss then "start_is_first_arrival" else "start_is_something_else") else None) results in
+             " " ^ String.concat "," (List.sort_uniq compare kinds) in
+           if cls <> [] then "chk " ^ String.concat "," cls ^ start_kind else "ok nt"
+       | _ -> "bad line")
   | "R" :: _ :: pairs ->
       (* concurrent run: every delivered session must have end <= the watermark being handled *)
       let rec ok = function
